@@ -162,5 +162,5 @@ RL(hq, LimPBR, 2, 5) RL(hq, LimBR, 2, 5) RL(hq, LimSR, 2, 5) RL(hq, LimPBR, 1, 3
 #define WC(tier, Tag, K, N) extern "C" void tier##_writer_conf_##Tag##_k##K##_n##N(void) { writer_conf<Tag, K, N>(); }
 WC(hq, PBW, 2, 8) WC(hq, BW, 2, 8) WC(hq, CBW, 2, 8) WC(hq, SW, 2, 8) WC(hq, FW, 2, 8) WC(hq, BndPBW, 2, 8) WC(hq, BndBW, 2, 8) WC(hq, BndCBW, 2, 8) WC(hq, BndSW, 2, 8)
 WC(hq, PBW, 3, 4) WC(hq, CBW, 3, 4) WC(hq, BW, 3, 4) WC(hq, CBW, 1, 16) WC(hq, BW, 1, 16)
-WC(ht, PBW, 3, 16) WC(ht, BW, 3, 16) WC(ht, CBW, 3, 16) WC(ht, SW, 3, 16) WC(ht, FW, 3, 16) WC(ht, BndPBW, 3, 16) WC(ht, BndBW, 3, 16) WC(ht, BndCBW, 3, 16) WC(ht, BndSW, 3, 16)
+WC(ht, PBW, 3, 16) WC(ht, BW, 3, 16) WC(ht, CBW, 3, 16) WC(ht, SW, 3, 16) WC(ht, FW, 3, 8) WC(ht, BndPBW, 3, 16) WC(ht, BndBW, 3, 16) WC(ht, BndCBW, 3, 16) WC(ht, BndSW, 3, 8)
 WC(ht, PBW, 4, 8) WC(ht, CBW, 4, 8)
